@@ -86,7 +86,7 @@ def items_literal(shx):
 def run(ctx):
     common.check_obligations(ctx, THEOREMS)
     rng = ctx.rng
-    nfiles = 500 if ctx.thorough() else 60
+    nfiles = 4000 if ctx.thorough() else 60
     ev = 0
     coq_files = []
     tmp = tempfile.mkdtemp(prefix='verif-c07-')
@@ -141,7 +141,7 @@ def run(ctx):
             if k < 1:
                 common.sample(ctx, {'input': text[:400], 'written': w1[:400]})
         # ---- include files
-        ninc = 300 if ctx.thorough() else 40
+        ninc = 2500 if ctx.thorough() else 40
         inc_cases = []
         for k in range(ninc):
             for f in os.listdir(tmp):
